@@ -14,6 +14,7 @@ import enum
 import inspect
 import itertools
 import keyword
+import unicodedata
 import typing
 from typing import Any, Dict, List, Optional
 
@@ -311,6 +312,24 @@ def leg_keyword_fields(names, report):
         run_program(report, {**sig, "kind": "typeddict"}, f"TypedDict key {name!r} renamed", case, td,
                     [name_mapping(td, map={name: "renamed"})], {"renamed": 1, "benign": "s"},
                     {name: 1, "benign": "s"}, {"renamed": 1, "benign": "s"})
+        norm = unicodedata.normalize("NFKC", name)
+        if norm != name:
+            # two DIFFERENT keys of one model that the parser would fold into one identifier
+            both = TypedDict("TDB", {name: int, norm: int, "benign": str})
+            data = {name: 1, norm: 2, "benign": "s"}
+            run_program(report, {**sig, "kind": "typeddict", "site": "nfkc_equal_keys"}, f"TypedDict with the keys {name!r} and {norm!r}",
+                        {**case, "site": "nfkc_equal_keys"}, both, [], dict(data), dict(data), dict(data))
+            report.case(("C19.keyword_field.conv_both", name), nontrivial=True)
+            try:
+                both2 = TypedDict("TDB2", {name: int, norm: int, "benign": str})
+                out = get_converter(both, both2)(dict(data))
+                if out != data:
+                    report.violation({"check": "C19.converter", "problem": "wrong_result", "site": "nfkc_equal_keys"},
+                                     f"converter TypedDict -> TypedDict with the keys {name!r} and {norm!r} gives {out!r}", case)
+            except Exception as e:  # noqa: BLE001
+                report.violation({"check": "C19.converter", "problem": "creation_failed", "site": "nfkc_equal_keys",
+                                  "exc": type(e.__cause__ or e).__name__},
+                                 f"converter with the keys {name!r} and {norm!r} failed: {type(e).__name__}: {str(e.__cause__ or e)[:200]}", case)
         try:
             pm = pydantic.create_model("PM", **{name: (int, ...), "benign": (str, ...)})
         except Exception:  # noqa: BLE001
